@@ -95,7 +95,7 @@ func C12(c *Ctx) {
 	if fn := c.Fn("", "DB.closeInternal"); fn != nil {
 		orderedCallsDeep(c, r1, fn,
 			[]string{"stopCommitWorkers", "lsm.Close", "vlog.close", "wal.Close", "dirLock.Release"},
-			[]Matcher{Named("NoKV.(*DB).stopCommitWorkers"), Named("lsm.(*LSM).Close"), Named("NoKV.(*valueLog).close"), Named("wal.(*Manager).Close"), Named("utils.(*DirLock).Release")},
+			[]Matcher{commitWGWait, Named("lsm.(*LSM).Close"), Named("NoKV.(*valueLog).close"), Named("wal.(*Manager).Close"), Named("utils.(*DirLock).Release")},
 			func(f *ssa.Function) edgeSet { return nilFieldEdges(f, "NoKV.DB", "dirLock") }, 2)
 		// errors of the three closes are collected (used), wherever the close is performed
 		holders := []*ssa.Function{fn}
@@ -117,8 +117,12 @@ func C12(c *Ctx) {
 			}
 		}
 	}
-	if fn := c.Fn("", "DB.stopCommitWorkers"); fn != nil {
-		orderedCalls(c, r1, fn, []string{"commitQueue.close", "commitWG.Wait"}, []Matcher{Named("NoKV.(*commitQueue).close"), Named("(*sync.WaitGroup).Wait")})
+	scw := c.FnOpt("", "DB.stopCommitWorkers")
+	if scw == nil {
+		scw = c.Fn("", "DB.closeInternal") // inlined
+	}
+	if fn := scw; fn != nil {
+		orderedCallsDeep(c, r1, fn, []string{"commitQueue.close", "commitWG.Wait"}, []Matcher{Named("NoKV.(*commitQueue).close"), Named("(*sync.WaitGroup).Wait")}, nil, 1)
 	}
 	if fn := c.Fn("wal", "Manager.Close"); fn != nil {
 		flush := Named("(*bufio.Writer).Flush")
@@ -838,15 +842,47 @@ func C37(c *Ctx) {
 	const r1 = "K1.close-guarded-waits"
 	c.Rule(r1, "every indefinite wait on the write path has a close-guarded exit: sendToWriteCh's throttle loop tests isClosed/commitQueue.closed; commitQueue.acquireSpace selects on closeCh; acquireItem returns when closed and drained; pop returns nil when closed and empty; commitWorker exits on a nil batch and releases commitWG; every commitWorker path that took a batch acknowledges it (wg.Done reaches every request)")
 	if fn := c.Fn("", "DB.sendToWriteCh"); fn != nil {
-		// inside the throttle loop, a load of DB.isClosed or commitQueue.closed leads to a return
-		found := 0
-		for _, ci := range Calls(fn, false, Named("sync/atomic.LoadUint32")) {
-			if o, f, ok := FieldOf(ci.Common().Args[0]); ok && ((o == "NoKV.DB" && f == "isClosed") || (o == "NoKV.commitQueue" && f == "closed")) && blockInLoop(ci.Block()) {
-				found++
+		// inside the throttle loop (in sendToWriteCh or a helper it calls), DB.isClosed and
+		// commitQueue.closed are both consulted – by an atomic load or by a method that performs it
+		loadsField := func(f *ssa.Function) map[string]bool {
+			out := map[string]bool{}
+			for _, ci := range Calls(f, false, Named("sync/atomic.LoadUint32")) {
+				if o, fl, ok := FieldOf(ci.Common().Args[0]); ok && ((o == "NoKV.DB" && fl == "isClosed") || (o == "NoKV.commitQueue" && fl == "closed")) {
+					out[o+"."+fl] = true
+				}
 			}
+			return out
 		}
+		tested := map[string]bool{}
+		scan := func(g *ssa.Function) {
+			AllInstrs(g, false, func(in ssa.Instruction) {
+				ci, ok := in.(ssa.CallInstruction)
+				if !ok || !blockInLoop(in.Block()) {
+					return
+				}
+				if Named("sync/atomic.LoadUint32")(ci.Common()) {
+					if o, fl, ok := FieldOf(ci.Common().Args[0]); ok && ((o == "NoKV.DB" && fl == "isClosed") || (o == "NoKV.commitQueue" && fl == "closed")) {
+						tested[o+"."+fl] = true
+					}
+					return
+				}
+				if h := StaticFn(ci.Common()); h != nil && h.Blocks != nil && FuncPkgPath(h) == FuncPkgPath(fn) {
+					for k := range loadsField(h) {
+						tested[k] = true
+					}
+				}
+			})
+		}
+		scan(fn)
+		AllInstrs(fn, false, func(in ssa.Instruction) {
+			if ci, ok := in.(ssa.CallInstruction); ok {
+				if h := StaticFn(ci.Common()); h != nil && h.Blocks != nil && h != fn && FuncPkgPath(h) == FuncPkgPath(fn) {
+					scan(h)
+				}
+			}
+		})
+		found := len(tested)
 		c.Decide(found >= 2, r1, key(fn, "throttle-loop#closed-exit"), fn.Pos(), found+1, "throttle loop tests DB.isClosed and commitQueue.closed", fmt.Sprintf("throttle wait loop has %d close tests (expected isClosed and commitQueue.closed)", found))
-		// the loop body sleeps (no busy spin) and the loop has a return
 	}
 	if fn := c.Fn("", "commitQueue.acquireSpace"); fn != nil {
 		selectHas(c, r1, fn, "NoKV.commitQueue", "closeCh")
@@ -1144,4 +1180,14 @@ func lockLeaks(fn *ssa.Function) []string {
 	}
 	sortStrings(res)
 	return res
+}
+
+// commitWGWait matches commitWG.Wait(): the point at which the commit worker has stopped
+// (reached through DB.stopCommitWorkers or inlined).
+func commitWGWait(cc *ssa.CallCommon) bool {
+	if !Named("(*sync.WaitGroup).Wait")(cc) || len(cc.Args) == 0 {
+		return false
+	}
+	o, f, ok := FieldOf(cc.Args[0])
+	return ok && o == "NoKV.DB" && f == "commitWG"
 }
